@@ -46,7 +46,7 @@ impl Runner for Stub {
         let mut seen = self.seen.lock().unwrap();
         let i = seen.len();
         seen.push(json!({"name": name, "timeout": testcase.config.timeout.map(|d| d.as_nanos().to_string()),
-                         "scrut_test": testcase.config.environment.get("SCRUT_TEST")}));
+                         "scrut_test": testcase.config.environment.get("SCRUT_TEST"), "config": crate::cfg::tcc_to(&testcase.config)}));
         if let Some(ns) = self.script[i]["sleep_ns"].as_u64() {
             if ns > 0 {
                 std::thread::sleep(Duration::from_nanos(ns.min(300_000_000)));
@@ -87,15 +87,22 @@ pub fn execute_all(w: &Value) -> Value {
         Box::new(Stub { script: script2.clone(), seen: seen2.clone() }) as Box<dyn Runner>
     }));
     let tests: Vec<TestCase> = w["tests"].as_array().unwrap().iter().enumerate().map(|(i, t)| {
-        let mut config = TestCaseConfig::empty();
-        config.timeout = dur(&t["timeout"]);
-        config.skip_document_code = t["skip"].as_i64().map(|x| x as i32);
+        // either the two keys the timeout / skip claims need, or a full configuration (C16: document defaults in the executor)
+        let mut config = if t["config"].is_object() { crate::cfg::tcc_from(&t["config"]) } else { TestCaseConfig::empty() };
+        if !t["config"].is_object() {
+            config.timeout = dur(&t["timeout"]);
+            config.skip_document_code = t["skip"].as_i64().map(|x| x as i32);
+        }
         TestCase { title: "t".into(), shell_expression: "x".into(), expectations: vec![], exit_code: None, line_number: i + 1, config }
     }).collect();
     let refs: Vec<&TestCase> = tests.iter().collect();
     let mut doc = DocumentConfig::empty();
     doc.total_timeout = dur(&w["total_timeout"]);
-    doc.defaults.skip_document_code = w["default_skip"].as_i64().map(|x| x as i32);
+    if w["defaults"].is_object() {
+        doc.defaults = crate::cfg::tcc_from(&w["defaults"]);
+    } else {
+        doc.defaults.skip_document_code = w["default_skip"].as_i64().map(|x| x as i32);
+    }
     let tmp = std::env::temp_dir().join(format!("verif-exec-{}", std::process::id()));
     let _ = std::fs::create_dir_all(&tmp);
     let context = ContextBuilder::default()
